@@ -27,7 +27,7 @@ MAP = {
     "uc.c": "C16 C17 C18 C07 C08",
     "ren.c": "C17 C18 C07 C19",
     "dir.c": "C18 C17 C19",
-    "mot.c": "C07 C08 C09",
+    "mot.c": "C07 C13 C08 C09",
     "reg.c": "C08 C09 C06",
     "led.c": "C19 C09 C08 C06 C05",
     "ex.c": "C06 C14 C15 C13 C20 C03 C02 C01 C09",
